@@ -8,6 +8,7 @@ from ..astutil import call_name, calls_in, unparse
 from ..cfg import CFG, CNode, LocalDefs, path_text
 from ..index import AnalysisError, ClassInfo, FuncInfo
 from ..inventory import call_sites, recv_class, stores_to_attr
+from ..inventory import only_called_from
 from ..report import Ctx
 from ..reqtree import RequestTree
 from ..stateflow import state_flow, store_of_field
@@ -75,10 +76,12 @@ def r12_1(ctx: Ctx, uni: Set[str]) -> Dict[str, Dict[int, FrozenSet[str]]]:
             continue
         n_store += 1
         owner = s.owner
-        ok = owner in ALLOWED_WRITERS
+        via = None if owner in ALLOWED_WRITERS else only_called_from(ix, s.fn, ALLOWED_WRITERS)
+        ok = owner in ALLOWED_WRITERS or bool(via)
         writers_of_state.add(owner)
         ctx.record("R12.1", f"{s.path}::{owner}::store operating_state = {unparse(s.value)[:50]}", s.where, ok,
-                   ALLOWED_WRITERS.get(owner, "writer of a node's power state outside the power state machine"))
+                   ALLOWED_WRITERS.get(owner, f"helper called only from {via}" if via else
+                                       "writer of a node's power state outside the power state machine"))
     ctx.floor("R12.1", "stores to Node.operating_state", n_store, 8)
     flows: Dict[str, Dict[int, FrozenSet[str]]] = {}
     changers = {"power_on", "power_off", "reset", "apply_timestep"}
